@@ -235,7 +235,14 @@ public:
         else { op.n[0] = std::clamp(ref.position.start + d, 0, len); op.n[1] = std::clamp(ref.position.finish + r.Range(-1, 1), (int)op.n[0], len); }
       }
       return true;
-    case 2: if (r.Pct(60)) { op.kind = "OutputRefs"; } else { op.kind = "OutputRefsRange"; const int a = r.Range(0, std::max(0, len - 1)); op.n = { a, r.Range(a, len) }; } return true;
+    case 2: if (r.Pct(60)) { op.kind = "OutputRefs"; } else {
+        op.kind = "OutputRefsRange"; const int a = r.Range(0, std::max(0, len - 1)); op.n = { a, r.Range(a, len) };
+        if (mgrLoaded && !mgr->get().empty() && r.Pct(60)) {   // selections that start / end exactly at reference borders (copy of a selection)
+          std::vector<int> borders{ 0, len }; for (auto& x : mgr->get()) { borders.push_back(x.position.start); borders.push_back(x.position.finish); }
+          int x = std::clamp(r.Pick(borders), 0, std::max(0, len - 1)), y = std::clamp(r.Pct(50) ? r.Pick(borders) : len, 0, len); if (x > y) std::swap(x, y); op.n = { x, y };
+        }
+      }
+      return true;
     case 3:
       switch (r.Below(5)) {
       case 0: op.kind = "MT_InitFrom"; GenPieces(c, op, true); return true;
@@ -450,7 +457,17 @@ public:
       } else {
         const int len = static_cast<int>(shadow.size()); if (len == 0) return;
         int a = static_cast<int>(op.N(0)) % len, b = static_cast<int>(op.N(1)) % (len + 1); if (a > b) std::swap(a, b);
-        (void)mgr->OutputRefs(text, StrRange{ a, b });    // policy of partial coverage not stated: only "never faults"
+        const std::string got = mgr->OutputRefs(text, StrRange{ a, b });
+        // a selection that cuts a reference: the policy of partial coverage is not stated, only "never faults". A selection whose borders lie
+        // outside every reference (or exactly on reference borders) must write back its part of the text: plain text as is, every reference inside it
+        bool cuts = false, degenerate = a == b; for (auto& x : mgr->get()) { if ((x.position.start < a && a < x.position.finish) || (x.position.start < b && b < x.position.finish)) cuts = true; if (x.position.start >= x.position.finish) degenerate = true; }
+        if (!cuts && !degenerate) {
+          c.Oracle("output_refs_selection"); c.Probe("selection_on_reference_borders");
+          std::string expect; size_t cur = static_cast<size_t>(a);
+          for (auto& x : mgr->get()) { if (x.position.finish <= a) continue; if (x.position.start >= b) break; expect += Join(shadow, cur, static_cast<size_t>(x.position.start)); expect += x.ToString(); cur = static_cast<size_t>(x.position.finish); }
+          expect += Join(shadow, cur, static_cast<size_t>(b));
+          if (got != expect) { c.Fail(prop, "output_refs", k + "/selection", "OutputRefs over [" + std::to_string(a) + "," + std::to_string(b) + ") gives '" + got + "' expected '" + expect + "'"); return; }
+        }
       }
     }
     else if (k == "MT_InitFrom" || k == "MT_SetRaw" || k == "LT_SetText") {
